@@ -210,7 +210,7 @@ func getClass(st quickfix.MessageStore, b, e int) string {
 	})
 }
 
-const wholeRangeEnd = 1 << 62
+const wholeRangeEnd = 1<<63 - 1 // the largest Go int: GetMessages over the whole range
 
 func (im *storeImpl) execCrash(w []string) string {
 	c := im.crash
